@@ -62,6 +62,7 @@ def run_one(pid, m, keep=False):
             return {"name": m["name"], "status": "not-applicable", "detail": err}
         ev = tempfile.mkdtemp(prefix="dgmut-ev-")
         env = dict(os.environ, VERIF_REPO=d, VERIF_EVIDENCE_DIR=ev, VERIF_REPORT_DIR=ev, VERIF_FACTS_TAG="mut-")
+        env.setdefault("VERIF_CACHE_DIR", os.path.join(VERIF, ".cache", "selftest"))
         r = subprocess.run([os.path.join(VERIF, "check"), pid, "--tier", "quick"], env=env, capture_output=True, text=True)
         out = r.stdout
         shutil.rmtree(ev, ignore_errors=True)
